@@ -60,6 +60,11 @@ func (C12) Generate(c *Ctx, r *Rand, index int) *Scenario {
 	ndocs := rs.Range(1, 3)
 	docs := c12Docs(r, ndocs, rs.Chance(1, 3))
 	target := "t.yaml"
+	if rs.Chance(1, 8) {
+		// legal but unusual names: at the length limit of a directory entry, hidden, blanks, glob characters, non-ASCII
+		target = Pick(rs, []string{strings.Repeat("n", 250) + ".yaml", strings.Repeat("\u00e9", 125) + ".yml", "a b.yaml", ".hidden.yaml", "x*?[1].yaml", "\u00fcn\u00ef c\u00f6d\u00e9.yaml", "t.yaml.bak.yaml", "~t.yaml"})
+		sc.Meta["name_class"] = "unusual"
+	}
 	frontMatter := false
 	if kind == 0 && rs.Chance(1, 6) {
 		// front matter: yaml block, then arbitrary text
